@@ -57,7 +57,7 @@ def run_c16(prop, tier, seed):
     g = G(seed)
     tmp = tempfile.mkdtemp(prefix="verif_c16_")
     res = {"name": "C16-oracle", "model_mismatches": [], "oracle_failures": [], "samples": [], "stats": {}}
-    n = 40 if tier == "quick" else 1500
+    n = 160 if tier == "quick" else 1500
     ev = 0
     try:
         for i in range(n):
@@ -105,8 +105,9 @@ def run_c16(prop, tier, seed):
               arg = g.value(3)
               while not containers_in(arg):
                   arg = g.container(g.r.choice(["list", "dict"]), 3)
-              entry = g.r.choice(["set", "append", "extend", "insert", "iadd", "slice", "reset", "ctor"] if is_list
-                                 else ["set", "update", "update_kw", "setdefault", "reset", "ctor"])
+              entries_ = (["set", "append", "extend", "insert", "iadd", "slice", "reset", "ctor"] if is_list
+                          else ["set", "update", "update_kw", "setdefault", "reset", "ctor"])
+              entry = entries_[(i // len(ns.all_classes)) % len(entries_)]      # every entry point of every class, in turn
               shared = None
               if g.r.random() < 0.45:
                   # one container object referenced from several positions of the argument (a DAG, not a tree)
